@@ -17,6 +17,21 @@ import (
 type SCase struct {
 	Schema *GSchema `json:"schema"`
 	Value  any      `json:"value"`
+	Mode   int      `json:"mode,omitempty"` // 0 plain, 1 asreq, 2 asreq without read-only checks, 3 asrep, 4 asrep without write-only checks
+}
+
+func (c *SCase) modeOpts() []openapi3.SchemaValidationOption {
+	switch c.Mode {
+	case 1:
+		return []openapi3.SchemaValidationOption{openapi3.VisitAsRequest()}
+	case 2:
+		return []openapi3.SchemaValidationOption{openapi3.VisitAsRequest(), openapi3.DisableReadOnlyValidation()}
+	case 3:
+		return []openapi3.SchemaValidationOption{openapi3.VisitAsResponse()}
+	case 4:
+		return []openapi3.SchemaValidationOption{openapi3.VisitAsResponse(), openapi3.DisableWriteOnlyValidation()}
+	}
+	return nil
 }
 
 type SErr struct {
@@ -165,8 +180,9 @@ func deepCopyJSON(v any) any {
 	return out
 }
 
-func runSchemaCase(c *SCase, opts ...openapi3.SchemaValidationOption) SObs {
+func runSchemaCase(c *SCase) SObs {
 	var o SObs
+	opts := c.modeOpts()
 	s := c.Schema.ToOpenAPI()
 	val := normJSON(c.Value)
 	visit := func(extra ...openapi3.SchemaValidationOption) (err error, p any) {
@@ -315,8 +331,8 @@ func sErrsCoq(l []SErr) string {
 
 func sCaseCoq(c *SCase, o *SObs, mode string) string {
 	comp, mat, fmts := schemaOracles(c)
-	return fmt.Sprintf("mkSCase %s %s %s %s %s %s%s %s%s %s%s %s %s %s",
-		c.Schema.Coq(), coqJSON(normJSON(c.Value)), coqList(comp), coqList(mat), coqList(fmts),
+	return fmt.Sprintf("mkSCase %s %s %s %s %s %d%%N %s%s %s%s %s%s %s %s %s",
+		c.Schema.Coq(), coqJSON(normJSON(c.Value)), coqList(comp), coqList(mat), coqList(fmts), c.Mode,
 		strconv.Itoa(o.Default), "%N", strconv.Itoa(o.Failfast), "%N", strconv.Itoa(o.Multi), "%N",
 		sErrsCoq(o.DefErr), sErrsCoq(o.MultiErrs), coqBool(len(o.PtrBad) == 0))
 }
@@ -327,7 +343,7 @@ func sDirected() []SCase {
 	var out []SCase
 	add := func(g *GSchema, vals ...any) {
 		for _, v := range vals {
-			out = append(out, SCase{g, v})
+			out = append(out, SCase{Schema: g, Value: v})
 		}
 	}
 	vals := []any{nil, true, 0.0, 1.0, 1.5, -1.0, 2.0, 3.0, "", "a", "abc", "abcd", []any{}, []any{1.0}, []any{1.0, 1.0}, []any{1.0, "a", nil},
@@ -426,7 +442,7 @@ func sRandomCase(r *Rng, o SchemaGenOpts) SCase {
 	default:
 		v = mutateValue(r, valueFor(r, g, 3))
 	}
-	return SCase{g, v}
+	return SCase{Schema: g, Value: v}
 }
 
 func nontrivialSchemaCase(c *SCase) bool {
